@@ -43,6 +43,17 @@ def field_classes(f: Field, rng: random.Random, n_random: int = 2, db=None):
             for i in range(n_random):
                 cand.append((f"random_in_range", rng.randint(lo, hi)))
         cand.append(("random_any", rng.randint(smin, smax)))
+        # values the code under test mentions literally (harvested from its source at run time), as raw codes and as the raw
+        # code of that physical value
+        hv = _harvested()
+        if hv:
+            picks = rng.sample(hv, min(len(hv), 4))
+            for c in picks:
+                cand.append(("harvested_constant", c))
+                try:
+                    cand.append(("harvested_constant_as_value", int(round(c / float(f.res)))))
+                except Exception:  # noqa: BLE001
+                    pass
         seen = set()
         for name, s in cand:
             if s < smin or s > smax:
@@ -59,6 +70,9 @@ def field_classes(f: Field, rng: random.Random, n_random: int = 2, db=None):
         picks = vals if len(vals) <= 6 else rng.sample(vals, 6)
         for v in picks:
             yield "lookup_defined", v, True
+        for c in rng.sample(_harvested(), min(len(_harvested()), 3)):
+            if 0 <= c <= full:
+                yield "harvested_constant", c, True
         undefined = [v for v in (0, 1, full, full - 1, rng.randint(0, full)) if v not in tab and 0 <= v <= full]
         for v in undefined[:2]:
             yield "lookup_undefined", v, True
@@ -98,6 +112,18 @@ def field_classes(f: Field, rng: random.Random, n_random: int = 2, db=None):
 
 
 ALNUM = "ABCDEFGHIJKLMNOPQRSTUVWXYZabcdefghijklmnopqrstuvwxyz0123456789"
+
+
+def _harvested():
+    try:
+        from . import harvest
+        return harvest.constants()["ints"]
+    except Exception:  # noqa: BLE001 - no harvest, no extra candidates
+        return []
+
+
+def harvested_in(lo, hi):
+    return [v for v in _harvested() if lo <= v <= hi]
 
 
 def string_fix_cases(nbytes: int, rng: random.Random):
@@ -169,6 +195,12 @@ def base_raw_for(f: Field, rng: random.Random, db=None) -> int:
         lo, hi = f.raw_bounds()
         if hi < lo:
             return f.na_raw()
+        if rng.random() < 0.05:
+            hv = harvested_in(lo, hi)
+            if hv:
+                u = rng.choice(hv) & full
+                if u != f.na_raw():
+                    return u
         for _ in range(8):
             s = rng.randint(lo, hi)
             u = s & full
